@@ -62,7 +62,7 @@ fn life_jobs(props: &[&'static str], thorough: bool, read_faults: bool) -> Vec<J
         // one level deeper on the two core scenarios, read faults everywhere, two crashes / two faults at level 3
         v.push(w(rf(scen::s_life("S-life/1htlc", false, false, false)), props, 4, true));
         v.push(w(rf(scen::s_life("S-life/2htlc", true, false, false)), props, 4, true));
-        v.push(w(rf(scen::s_life("S-life/1htlc+retry", false, false, true)), props, 3, true));
+        v.push(w(rf(scen::s_life("S-life/1htlc+retry", false, false, true)), props, 4, true));
         v.push(w(rf(scen::s_life("S-life/2htlc+extra", true, true, false)), props, 3, true));
         v.push(w(rf(scen::s_life("S-life/2htlc+retry", true, false, true)), props, 3, true));
         let mut c = scen::s_life("S-life/1htlc/2crashes+2faults", false, false, false);
@@ -70,7 +70,7 @@ fn life_jobs(props: &[&'static str], thorough: bool, read_faults: bool) -> Vec<J
         c.max_faults = 2;
         v.push(w(rf(c), props, 3, true));
     }
-    v.push(w(rf(scen::s_overlap()), props, if thorough { 3 } else { 2 }, true));
+    v.push(w(rf(scen::s_overlap()), props, if thorough { 4 } else { 2 }, true));
     v.push(w(rf(scen::s_life_xpay()), props, if thorough { 3 } else { 2 }, true));
     v.push(w(rf(scen::s_life_amountless()), props, if thorough { 3 } else { 2 }, true));
     v.push(w(rf(scen::s_hist_two_pending(0)), props, if thorough { 3 } else { 2 }, false));
